@@ -63,8 +63,9 @@ type Param struct {
 }
 
 type Clause struct {
-	Label string
-	E     Expr
+	Label   string
+	Assumed bool // `ensures assumed ...`: given to callers, not checked in the body (listed as an assumption)
+	E       Expr
 	Src   string
 	Where string // file:line
 }
@@ -197,6 +198,7 @@ type SpecFile struct {
 	Theory  string
 	Imports map[string]string
 	Binds   [][2]string // interface type => concrete type (wiring assumption A-WIRE)
+	Globals [][2]string // pkgalias.Var, string value: package-level string variable of a dependency assumed to keep this value
 }
 
 // ---------- lexer ----------
@@ -495,7 +497,7 @@ func parseExpr(src string) (e Expr, err error) {
 // ---------- file level ----------
 
 var itemKw = map[string]bool{"func": true, "extern": true, "spec": true, "axiom": true, "lemma": true,
-	"property": true, "opaque": true, "ghost": true, "theory": true, "import": true, "bind": true}
+	"property": true, "opaque": true, "ghost": true, "theory": true, "import": true, "bind": true, "global": true}
 var clauseKw = map[string]bool{"requires": true, "ensures": true, "modifies": true, "loop": true, "call": true,
 	"nopanic": true, "trusted": true, "pure": true, "cut": true, "induction": true, "fresh": true, "trigger": true, "uses": true, "auto": true, "select": true, "oncall": true, "onrecv": true, "iterates": true, "untyped": true}
 
@@ -544,6 +546,10 @@ var labelRe = regexp.MustCompile(`^\[([A-Za-z_][A-Za-z0-9_]*)\]\s*`)
 func parseClause(l rawLine) (Clause, error) {
 	c := Clause{Where: l.where}
 	txt := l.text
+	if strings.HasPrefix(txt, "assumed ") {
+		c.Assumed = true
+		txt = strings.TrimSpace(txt[len("assumed "):])
+	}
 	if m := labelRe.FindStringSubmatch(txt); m != nil {
 		c.Label = m[1]
 		txt = txt[len(m[0]):]
@@ -615,6 +621,17 @@ func parseSpecFile(path string) (*SpecFile, error) {
 				continue
 			}
 			sf.Theory = l.text
+		case "global":
+			// global sdk.AttributeKeyModule = "module"
+			m := regexp.MustCompile(`^([A-Za-z_][A-Za-z0-9_]*)\.([A-Za-z_][A-Za-z0-9_]*)\s*=\s*("(?:[^"\\]|\\.)*")$`).FindStringSubmatch(strings.TrimSpace(l.text))
+			if m == nil {
+				return nil, fmt.Errorf("%s: bad global (global pkg.Var = \"value\")", l.where)
+			}
+			v, err := strconv.Unquote(m[3])
+			if err != nil {
+				return nil, fmt.Errorf("%s: %v", l.where, err)
+			}
+			sf.Globals = append(sf.Globals, [2]string{m[1] + "." + m[2], v})
 		case "bind":
 			parts := strings.Fields(l.text)
 			if len(parts) != 3 || parts[1] != "=>" {
